@@ -1,7 +1,7 @@
 ------------------------------ MODULE HpoLinkage ------------------------------
 (***************************************************************************)
-(* Growth beyond the listed properties: stats::Linkage (single, complete,  *)
-(* average linkage) as a merge state machine.                              *)
+(* C17: stats::Linkage (single, complete, average, union linkage) as a     *)
+(* merge STATE MACHINE.                                                    *)
 (*   clusters 0..N-1 are the initial sets, every merge creates cluster     *)
 (*   N, N+1, ...; a step merges a pair of active clusters whose distance   *)
 (*   is MINIMAL (the crate scans a hash map, so ties are broken            *)
@@ -11,19 +11,32 @@
 (*        complete: max(d[k,i], d[k,j])                                    *)
 (*        average:  (d[k,i] + d[k,j]) / 2                                  *)
 (*        union:    the user distance applied to the UNION of the merged   *)
-(*                  sets; modelled with an additive weight per set and     *)
-(*                  the user distance |W(A) - W(B)|                        *)
+(*                  sets and the set of k.  Every cluster carries its set  *)
+(*                  of items (cset; the inputs may overlap, be nested or   *)
+(*                  equal), every item a weight (iw), and the user         *)
+(*                  distance is |W(A) - W(B)|, W = sum of the item weights *)
+(*                  - a function of the CONTENT of the two sets, as the    *)
+(*                  crate's callback contract says.                        *)
 (* Distances are integers scaled by 2^N so that the repeated halving of    *)
-(* the average linkage stays exact.  The k-th merge is addressable as      *)
-(* cluster index N + k; Indices is the reported leaf order.                *)
+(* the average linkage stays exact; Inf stands for an infinite distance    *)
+(* (legal: e.g. 1/similarity - 1 for similarity 0) and is absorbing for    *)
+(* max and mean.  The k-th merge is addressable as cluster index N + k;    *)
+(* Indices is the reported leaf order.                                     *)
 (***************************************************************************)
 EXTENDS Integers, Sequences, FiniteSets, FiniteSetsExt, SequencesExt
 
 CONSTANTS N, Mode
 
-VARIABLES active, dist, nxt, merges, wt     \* wt: weight of every cluster ever created (union mode)
+VARIABLES active,   \* indices of the live clusters
+          dist,     \* distance of every unordered pair <<a, b>>, a < b, of live clusters
+          nxt,      \* index the next merge will create
+          merges,   \* Seq of [lhs, rhs, dist, size]: the dendrogram so far
+          cset,     \* items of every cluster ever created (union mode)
+          iw        \* weight of every item (union mode; never changes)
 
-lvars == <<active, dist, nxt, merges, wt>>
+lvars == <<active, dist, nxt, merges, cset, iw>>
+
+Inf == 1073741824      \* 2^30: an infinite distance
 
 Key(a, b) == IF a < b THEN <<a, b>> ELSE <<b, a>>
 Pairs(S) == {<<a, b>> \in S \X S : a < b}
@@ -31,37 +44,41 @@ Pairs(S) == {<<a, b>> \in S \X S : a < b}
 Combine(x, y) ==
   CASE Mode = "single"   -> IF x < y THEN x ELSE y
     [] Mode = "complete" -> IF x > y THEN x ELSE y
-    [] Mode = "average"  -> (x + y) \div 2
+    [] Mode = "average"  -> IF x = Inf \/ y = Inf THEN Inf ELSE (x + y) \div 2
+
+Abs(x) == IF x < 0 THEN -x ELSE x
 
 SizeIn(ms, x) == IF x < N THEN 1 ELSE ms[x - N + 1].size
 
 (* the successor configuration after merging the active pair <<i, j>> *)
-Abs(x) == IF x < 0 THEN -x ELSE x
+RECURSIVE SumW(_, _)
+SumW(w, S) == IF S = {} THEN 0 ELSE LET x == CHOOSE y \in S : TRUE IN w[x] + SumW(w, S \ {x})
+UserDist(w, A, B) == Abs(SumW(w, A) - SumW(w, B))
 
-After(act, d, nx, ms, w, i, j) ==
+After(act, d, nx, ms, cs, w, i, j) ==
   LET rest == act \ {i, j}
-      w2   == [k \in DOMAIN w \cup {nx} |-> IF k = nx THEN w[i] + w[j] ELSE w[k]]
+      cs2  == [k \in DOMAIN cs \cup {nx} |-> IF k = nx THEN cs[i] \cup cs[j] ELSE cs[k]]
       d2   == [p \in Pairs(rest) \cup {<<k, nx>> : k \in rest} |->
                  IF p[2] = nx
-                   THEN IF Mode = "union" THEN Abs(w2[nx] - w2[p[1]]) ELSE Combine(d[Key(p[1], i)], d[Key(p[1], j)])
+                   THEN IF Mode = "union" THEN UserDist(w, cs2[nx], cs2[p[1]]) ELSE Combine(d[Key(p[1], i)], d[Key(p[1], j)])
                    ELSE d[p]]
-  IN [ active |-> rest \cup {nx}, dist |-> d2, nxt |-> nx + 1, wt |-> w2,
+  IN [ active |-> rest \cup {nx}, dist |-> d2, nxt |-> nx + 1, cset |-> cs2,
        merges |-> Append(ms, [lhs |-> i, rhs |-> j, dist |-> d[<<i, j>>], size |-> SizeIn(ms, i) + SizeIn(ms, j)]) ]
 
 MinPairs(act, d) == {p \in Pairs(act) : \A q \in Pairs(act) : d[p] <= d[q]}
 
-LInit(d0, w0) == active = 0..(N - 1) /\ dist = d0 /\ nxt = N /\ merges = <<>> /\ wt = w0
+LInit(d0, cs0, w0) == active = 0..(N - 1) /\ dist = d0 /\ nxt = N /\ merges = <<>> /\ cset = cs0 /\ iw = w0
 
 Merge ==
   \E p \in MinPairs(active, dist) :
-     LET s == After(active, dist, nxt, merges, wt, p[1], p[2]) IN
-     active' = s.active /\ dist' = s.dist /\ nxt' = s.nxt /\ merges' = s.merges /\ wt' = s.wt
+     LET s == After(active, dist, nxt, merges, cset, iw, p[1], p[2]) IN
+     active' = s.active /\ dist' = s.dist /\ nxt' = s.nxt /\ merges' = s.merges /\ cset' = s.cset /\ iw' = iw
 
 (* all complete merge sequences from a configuration (ties branch) *)
-RECURSIVE Dendrograms(_, _, _, _, _)
-Dendrograms(act, d, nx, ms, w) ==
+RECURSIVE Dendrograms(_, _, _, _, _, _)
+Dendrograms(act, d, nx, ms, cs, w) ==
   IF Cardinality(act) <= 1 THEN {ms}
-  ELSE UNION { LET s == After(act, d, nx, ms, w, p[1], p[2]) IN Dendrograms(s.active, s.dist, s.nxt, s.merges, s.wt)
+  ELSE UNION { LET s == After(act, d, nx, ms, cs, w, p[1], p[2]) IN Dendrograms(s.active, s.dist, s.nxt, s.merges, s.cset, w)
                : p \in MinPairs(act, d) }
 
 (* the reported leaf order: the original sets in the order in which the merges mention them *)
@@ -71,6 +88,9 @@ Indices(ms, k) ==
   ELSE (IF ms[k].lhs < N THEN <<ms[k].lhs>> ELSE <<>>) \o (IF ms[k].rhs < N THEN <<ms[k].rhs>> ELSE <<>>) \o Indices(ms, k + 1)
 
 (* invariants of the machine *)
+(* every merge joined a pair that was closest at that moment, at the reported distance: by construction of Merge;  *)
+(* what remains checkable on the state: the recorded distance of the last merge is not larger than any live distance *)
+(* it could have chosen instead (single/complete) - see Monotone.                                                   *)
 Done == Cardinality(active) = 1
 SizesAddUp == Done => (N >= 2 => merges[Len(merges)].size = N) /\ Len(merges) = N - 1
 (* a binary tree over the inputs: every input and every intermediate cluster is merged exactly once, *)
